@@ -123,6 +123,17 @@ class RecHandler(object):
 def make_rec_handler(world):
     from yabgp.handler import BaseHandler
 
+    def fault(name):
+        """Injected application failure: the armed handler callback raises like a handler whose
+        storage is full (op `hfail`)."""
+        n = world.handler_fail_in
+        if n is not None:
+            n -= 1
+            world.handler_fail_in = n if n > 0 else None
+            if n <= 0:
+                world.note("handler_fault", name)
+                raise OSError(28, "No space left on device")
+
     class _Rec(BaseHandler):
         def __init__(self):
             super(_Rec, self).__init__()
@@ -132,24 +143,31 @@ def make_rec_handler(world):
 
         def on_update_error(self, peer, timestamp, msg):
             world.note("h", "on_update_error", world.cid_of(peer), canon(msg))
+            fault("on_update_error")
 
         def update_received(self, peer, timestamp, msg):
             world.note("h", "update_received", world.cid_of(peer), canon(msg))
+            fault("update_received")
 
         def keepalive_received(self, peer, timestamp):
             world.note("h", "keepalive_received", world.cid_of(peer))
+            fault("keepalive_received")
 
         def open_received(self, peer, timestamp, result):
             world.note("h", "open_received", world.cid_of(peer), canon(result))
+            fault("open_received")
 
         def send_open(self, peer, timestamp, result):
             world.note("h", "send_open", world.cid_of(peer), canon(result))
+            fault("send_open")
 
         def route_refresh_received(self, peer, msg, msg_type):
             world.note("h", "route_refresh_received", world.cid_of(peer), canon(msg), msg_type)
+            fault("route_refresh_received")
 
         def notification_received(self, peer, msg):
             world.note("h", "notification_received", world.cid_of(peer), canon(msg))
+            fault("notification_received")
 
         def on_connection_lost(self, peer):
             world.note("h", "on_connection_lost", world.cid_of(peer))
@@ -215,6 +233,7 @@ class World(object):
         self.handler = None
         self.exited = False
         self.crashed = False
+        self.handler_fail_in = None
         self.rest_log = []
         self.boots = 0
         bootstrap.FILE_CLOCK.n = 0
@@ -430,11 +449,11 @@ class World(object):
         self._enter("connect_ok", 0, c.c.sim_established)
         return True
 
-    def op_conn_refuse(self, k=0):
+    def op_conn_refuse(self, k=0, text=None):
         c = self.conn(k)
         if c is None or c.state != "connecting":
             return False
-        self._enter("connect_refused", 0, c.c.sim_refuse)
+        self._enter("connect_refused", 0, c.c.sim_refuse, text)
         return True
 
     def op_pw(self, k, hexdata):
@@ -540,6 +559,13 @@ class World(object):
         self.rest_log.append((len(self.log), method, path, cred, res.get("status"), res.get("json")))
         self.note("rest", method, path, cred, res.get("status"), canon(res.get("json")))
         self.last_rest = res
+        return True
+
+    def op_hfail(self, n=1):
+        """The n-th application-handler callback from now raises OSError(ENOSPC)."""
+        if self.exited:
+            return False
+        self.handler_fail_in = max(1, int(n))
         return True
 
     # ---- storage ops (logsim)
